@@ -14,6 +14,7 @@ def run(tier):
     oracle.decode_many([r["bytes"] for r in res if "bytes" in r and r.get("rc") == 0])
     st = {"accepted": 0, "rejected": 0, "rel8": 0, "rel32": 0, "must_reject_checked": 0, "silent_model": 0}
     relacc = []
+    rejected = []
     for c, (m, _, _), r, refok in zip(cases, items, res, ok):
         v.count()
         cc = dict(c)
@@ -35,6 +36,7 @@ def run(tier):
                 if model == {"reject"}:
                     st["must_reject_checked"] += 1
                     v.distinct(("rej", c["text"]))
+                    rejected.append((c, m, c["text"]))
                 if r["lo"] != -1:
                     v.violation(cc, "rejected-but-wrote-bytes", r["bytes"])
             continue
@@ -69,6 +71,7 @@ def run(tier):
     # the relative forms in chunk-fitting (padded, encoded twice) and counting mode: the displacement is a literal, not a target, so the
     # bytes must be exactly those of plain assembly wherever the branch ends up
     st["rel_mode_crossing_checks_ok"] = enc.mode_crossing(v, binary, relacc)
+    st["rejected_resubmitted_ok"] = enc.retry_rejected(v, binary, rejected if full else rnd.sample(rejected, min(len(rejected), 1500)))
     # indirect forms: registers here; memory and far-memory targets over the C02 address shapes
     ind = isa.gen_branch_indirect()
     mem = isa.gen_mem(full, rnd, classes={"jmp_m", "call_m"}, per_class=None if full else 3000)
